@@ -23,6 +23,7 @@ import (
 	"github.com/containerd/nri/pkg/stub"
 	"github.com/containerd/nri/pkg/vhook"
 
+	"verif/harness/rawpeer"
 	"verif/harness/rec"
 	"verif/harness/rig"
 )
@@ -278,6 +279,58 @@ func (s *session) handlers() *rig.Handlers {
 	}
 }
 
+// rawHandlers are the handlers of the stub-less plugin; they log and answer like the stub plugins (no vetoes).
+func (s *session) rawHandlers(full string) *rawpeer.Handlers {
+	upd := func(id string) []*api.ContainerUpdate {
+		u := &api.ContainerUpdate{ContainerId: "u/" + id + "/" + full}
+		u.SetLinuxCPUShares(7)
+		return []*api.ContainerUpdate{u}
+	}
+	return &rawpeer.Handlers{
+		Synchronize: func(r *api.SynchronizeRequest) (*api.SynchronizeResponse, error) {
+			if !r.More {
+				s.ev("recv.sync", "p", full, "ids", ctrIDs(r.Containers))
+			}
+			return &api.SynchronizeResponse{More: r.More}, nil
+		},
+		Create: func(_ context.Context, r *api.CreateContainerRequest) (*api.CreateContainerResponse, error) {
+			id := r.GetPod().GetId()
+			s.ev("recv", "p", full, "req", id, "event", "CreateContainer", "ctr", r.GetContainer().GetId())
+			s.perturb()
+			a := &api.ContainerAdjustment{}
+			a.AddAnnotation("tag/"+full, id)
+			return &api.CreateContainerResponse{Adjust: a}, nil
+		},
+		Update: func(_ context.Context, r *api.UpdateContainerRequest) (*api.UpdateContainerResponse, error) {
+			id := r.GetPod().GetId()
+			s.ev("recv", "p", full, "req", id, "event", "UpdateContainer", "ctr", r.GetContainer().GetId())
+			s.perturb()
+			return &api.UpdateContainerResponse{Update: upd(id)}, nil
+		},
+		Stop: func(_ context.Context, r *api.StopContainerRequest) (*api.StopContainerResponse, error) {
+			id := r.GetPod().GetId()
+			s.ev("recv", "p", full, "req", id, "event", "StopContainer", "ctr", r.GetContainer().GetId())
+			s.perturb()
+			return &api.StopContainerResponse{Update: upd(id)}, nil
+		},
+		UpdatePod: func(_ context.Context, r *api.UpdatePodSandboxRequest) (*api.UpdatePodSandboxResponse, error) {
+			id := r.GetPod().GetId()
+			s.ev("recv", "p", full, "req", id, "event", "UpdatePodSandbox", "ctr", "")
+			s.perturb()
+			return &api.UpdatePodSandboxResponse{}, nil
+		},
+		StateChange: func(_ context.Context, e *api.StateChangeEvent) error {
+			id := e.GetPod().GetId()
+			if id == rig.ProbePod {
+				return nil
+			}
+			s.ev("recv", "p", full, "req", id, "event", stateChangeNames[e.Event], "ctr", e.GetContainer().GetId())
+			s.perturb()
+			return nil
+		},
+	}
+}
+
 // update issues one unsolicited update from plugin p and logs call and return (with a watchdog)
 func (s *session) update(p *rig.Plugin, tag string, i int) {
 	full := p.FullName()
@@ -344,7 +397,9 @@ func tagsOfUpdates(us []*api.ContainerUpdate) []string {
 }
 
 // one request of a runtime goroutine
-func (s *session) request(r *rig.Rig, c string, n int) {
+// request issues one runtime request; it returns a function that reads the reply the caller got once more
+// (the reply belongs to the caller: it must not change when later requests are processed)
+func (s *session) request(r *rig.Rig, c string, n int) (recheck func()) {
 	ctx := context.Background()
 	id := fmt.Sprintf("r%d-%s-%d", s.run, c, n)
 	ev := EventNames[s.rnd(len(EventNames))]
@@ -358,7 +413,14 @@ func (s *session) request(r *rig.Rig, c string, n int) {
 		err   error
 		tags  = []string{}
 		block *adaptation.PluginSyncBlock
+		again func() []string
 	)
+	defer func() {
+		if again != nil {
+			first := append([]string{}, tags...)
+			recheck = func() { s.ev("recheck", "c", c, "req", id, "tags", first, "tags2", again()) }
+		}
+	}()
 	s.ev("call", "c", c, "req", id, "event", ev, "ctr", ctr)
 	t0 := time.Now()
 	if ev == "CreateContainer" && !s.o.NoBlocks {
@@ -382,18 +444,21 @@ func (s *session) request(r *rig.Rig, c string, n int) {
 		rpl, err = r.Ad.CreateContainer(ctx, &api.CreateContainerRequest{Pod: pod, Container: cont})
 		if err == nil {
 			tags = tagsOfAdjust(rpl.Adjust)
+			again = func() []string { return tagsOfAdjust(rpl.Adjust) }
 		}
 	case "UpdateContainer":
 		var rpl *api.UpdateContainerResponse
 		rpl, err = r.Ad.UpdateContainer(ctx, &api.UpdateContainerRequest{Pod: pod, Container: cont, LinuxResources: &api.LinuxResources{}})
 		if err == nil {
 			tags = tagsOfUpdates(rpl.Update)
+			again = func() []string { return tagsOfUpdates(rpl.Update) }
 		}
 	case "StopContainer":
 		var rpl *api.StopContainerResponse
 		rpl, err = r.Ad.StopContainer(ctx, &api.StopContainerRequest{Pod: pod, Container: cont})
 		if err == nil {
 			tags = tagsOfUpdates(rpl.Update)
+			again = func() []string { return tagsOfUpdates(rpl.Update) }
 		}
 	case "UpdatePodSandbox":
 		_, err = r.Ad.UpdatePodSandbox(ctx, &api.UpdatePodSandboxRequest{Pod: pod})
@@ -437,6 +502,7 @@ func (s *session) request(r *rig.Rig, c string, n int) {
 			s.prevBlock.Store(c, block)
 		}
 	}
+	return nil // set by the deferred function when there is a reply to re-read
 }
 
 // installSync makes the runtime hand out its own store and log the snapshot
@@ -536,6 +602,15 @@ func (s *session) oneRun(w *rec.Writer) error {
 	var wg sync.WaitGroup
 	started := []string{}
 	var stmu sync.Mutex
+	var raws []*rawpeer.Plugin
+	var rawMu sync.Mutex
+	defer func() {
+		rawMu.Lock()
+		for _, rp := range raws {
+			rp.Close()
+		}
+		rawMu.Unlock()
+	}()
 	for k := 0; k < o.Plugins; k++ {
 		k := k
 		idx := s.rnd(100)
@@ -595,14 +670,53 @@ func (s *session) oneRun(w *rec.Writer) error {
 			}
 		}()
 	}
+	// one plugin speaking the protocol directly (no stub) that answers Configure with the empty mask on the
+	// wire (= every event); the stub never sends it (it substitutes the mask of the implemented handlers)
+	if s.rnd(2) == 0 {
+		idx := s.rnd(100)
+		name := fmt.Sprintf("r%draw", s.run)
+		full := fmt.Sprintf("%02d-%s", idx, name)
+		s.conf.Store(full, pconf{name: full, idx: idx, mask: 0})
+		delay := time.Duration(s.rnd(3000)) * time.Microsecond
+		wg.Add(1)
+		go func() {
+			defer wg.Done()
+			time.Sleep(delay)
+			rp, err := rawpeer.Connect(r.Socket, name, fmt.Sprintf("%02d", idx), s.rawHandlers(full))
+			if err != nil {
+				s.ev("start.failed", "p", full, "err", err.Error())
+				return
+			}
+			rawMu.Lock()
+			raws = append(raws, rp)
+			rawMu.Unlock()
+			if err := rp.Register(5 * time.Second); err != nil {
+				s.ev("start.failed", "p", full, "err", err.Error())
+				return
+			}
+			s.ev("started", "p", full)
+			stmu.Lock()
+			started = append(started, full)
+			stmu.Unlock()
+		}()
+	}
 	for c := 0; c < o.Callers; c++ {
 		cname := fmt.Sprintf("c%d", c+1)
 		wg.Add(1)
 		go func() {
 			defer wg.Done()
+			var kept []func()
 			for n := 1; n <= o.Requests; n++ {
 				time.Sleep(time.Duration(s.rnd(400)) * time.Microsecond)
-				s.request(r, cname, n)
+				if f := s.request(r, cname, n); f != nil {
+					kept = append(kept, f)
+				}
+				if len(kept) > 1 {
+					kept[len(kept)-2]()
+				}
+			}
+			for _, f := range kept {
+				f()
 			}
 		}()
 	}
